@@ -64,6 +64,14 @@ impl DateTime {
         }
     }
 
+    /// Changes the associated time zone like [`DateTime::with_offset`], or returns `None` when the
+    /// local date-time in that zone would fall outside the supported range of years.
+    pub fn checked_with_offset(self, offset: time::UtcOffset) -> Option<Self> {
+        self.inner
+            .checked_to_offset(offset)
+            .map(|inner| Self { inner })
+    }
+
     /// Retrieves a date component.
     pub fn date(self) -> Date {
         Date {
